@@ -42,12 +42,21 @@ let () =
          let algo = int_of_string toks.(0) and rep = int_of_string toks.(1) and lcp = toks.(3) <> "0" in
          let mem_s = toks.(4) and depth = int_of_string toks.(5) and n0 = int_of_string toks.(6) in
          let raw = Array.init n0 (fun i -> unhex toks.(7 + i)) in
-         let strs = if rep = 4 then (let t = if n0 > 0 then raw.(0) else "" in
-                                     Array.init (String.length t) (fun i -> String.sub t i (String.length t - i)))
-                    else raw in
+         let ov = int_of_string toks.(2) in
+         (* ids.(k): identity of the object at input position k; for suffix sets the suffix index *)
+         let text = if rep = 4 && n0 > 0 then raw.(0) else "" in
+         let tl = String.length text in
+         let ids0 = if rep <> 4 then Array.init n0 (fun i -> i)
+           else if ov = 1 then Array.init tl (fun k -> tl - 1 - k)
+           else if ov = 2 then Array.init ((tl + 1) / 2) (fun k -> 2 * k)
+           else Array.init tl (fun i -> i) in
+         let strs = if rep = 4 then Array.map (fun i -> String.sub text i (tl - i)) ids0 else raw in
          let n = Array.length strs in
          let cstrs = Array.map str_of_string strs in
-         let inp = List.init n (fun i -> ((if rep = 2 then N0 else n_of_int i), cstrs.(i))) in
+         (* contents by identity *)
+         let nid = if rep = 4 then tl else n in
+         let by_id = if rep = 4 then Array.init tl (fun i -> str_of_string (String.sub text i (tl - i))) else cstrs in
+         let inp = List.init n (fun i -> ((if rep = 2 then N0 else n_of_int ids0.(i)), cstrs.(i))) in
          let maxlen = Array.fold_left (fun a s -> max a (String.length s)) 0 strs in
          (* implementation's output *)
          let impl = match oc with
@@ -67,11 +76,11 @@ let () =
            match impl with
            | None -> "-", "-", "-", None, []
            | Some (ids, lc, ss) ->
-             let badid = List.exists (fun i -> i < 0 || i >= n) ids in
+             let badid = List.exists (fun i -> i < 0 || i >= nid) ids in
              if badid || (rep = 2 && List.length ss <> List.length ids && n > 0) then "0", "0", "-", None, lc
              else begin
                let out = if rep = 2 then List.map (fun s -> (N0, str_of_string s)) ss
-                 else List.map (fun i -> (n_of_int i, cstrs.(i))) ids in
+                 else List.map (fun i -> (n_of_int i, by_id.(i))) ids in
                let lcl = List.map nat_of_int lc in
                let sp = check_sp inp out in
                let lo = if lcp then lcp_check out lcl else true in
@@ -82,7 +91,7 @@ let () =
             occur: no memory limit, or a limit of at least 1.5 MB (enough for the radix stacks of the generated cases) *)
          let mem_big = String.length mem_s > 7 || (String.length mem_s = 7 && mem_s >= "1500000") in
          let radix_only = (mem_s = "0" || mem_big) && algo <> 6 && algo <> 7 in
-         let runm = n <= small || radix_only in
+         let runm = (n <= small || radix_only) && maxlen <= 3000 in      (* char_at is O(depth) in the list model *)
          let model, mspec, canon, exact, lcp0 =
            if not runm then "skip", "-", "-", "-", "-"
            else begin
